@@ -75,7 +75,7 @@ FNAMES = ["f", "r#type", "r#g", "arg1"]   # plain, raw keyword, raw non-keyword,
 
 def unraw(n):
     return n[2:] if n and n.startswith("r#") else n
-CONTEXTS = ["gen", "nodeps", "mod", "impl", "trait", "traitreq"]
+CONTEXTS = ["gen", "nodeps", "mod", "impl", "trait", "traitreq", "stamped"]   # stamped: like gen, but written in a macro_rules body with the trait name as macro argument
 REQ_OK = {"id", "raw", "wild", "fnname", "gnext", "gprev", "suffix"}   # what a method WITHOUT a body may declare: identifiers and `_`
 
 
@@ -100,7 +100,7 @@ def enumerate_states(tier):
                     continue
                 if fname in ("r#g", "arg1") and len(w) > 2 and tier != "thorough":
                     continue
-                if ctx in ("trait", "traitreq") and len(w) > 2 and tier != "thorough":
+                if ctx in ("trait", "traitreq", "stamped") and len(w) > 2 and tier != "thorough":
                     continue
                 if ctx == "traitreq" and not set(w) <= REQ_OK:
                     continue
@@ -125,6 +125,10 @@ def render(s):
     if ctx == "gen":
         L += ["    #[::entrait::entrait(pub Tr)]",
               "    pub fn %s(deps: &impl ::core::any::Any, %s) -> String { %s }" % (fname, ", ".join(params), body)]
+        direct = "%s(&app, %s)" % (fname, args)
+    elif ctx == "stamped":
+        L += ["    macro_rules! mk { ($t:ident) => {", "    #[::entrait::entrait(pub $t)]",
+              "    pub fn %s(deps: &impl ::core::any::Any, %s) -> String { %s }" % (fname, ", ".join(params), body), "    } }", "    mk!(Tr);"]
         direct = "%s(&app, %s)" % (fname, args)
     elif ctx == "nodeps":
         L += ["    #[::entrait::entrait(pub Tr, no_deps)]",
